@@ -394,3 +394,41 @@ func verifH_C20_wrong_kind_in_progress() {
 	verifExercise([]byte(text), false)
 	verifReach("end")
 }
+
+//verif:harness id=C20 tier=thorough witness=end,loaded steps=20000000 maxpaths=200000 bounds="near-valid documents with two mutations: every node of the conforming document's JSON tree and one of the 12 nodes that follow it in document order (children, siblings, the parent's next member), each replaced by null / {} / a string, or removed (16 combinations): load, validate, serialise, internalise, serialise again; assertion = no panic"
+func verifH_C20_mutation_pairs() {
+	verifEntryPoint = 0
+	var tree any
+	if json.Unmarshal([]byte(verifBaseDoc), &tree) != nil {
+		return
+	}
+	n := verifCountNodes(tree)
+	k1 := verifChoose("node", n)
+	k2 := k1 + 1 + verifChoose("next", 12)
+	if k2 >= n {
+		return
+	}
+	pick := func(name string) (any, bool) {
+		switch verifChoose(name, 4) {
+		case 1:
+			return map[string]any{}, false
+		case 2:
+			return "s", false
+		case 3:
+			return nil, true
+		}
+		return nil, false
+	}
+	r1, rm1 := pick("r1")
+	r2, rm2 := pick("r2")
+	kk := k2
+	mutated, _ := verifMutate(tree, &kk, r2, rm2) // the later node first: the earlier one's position is not moved by it
+	kk = k1
+	mutated, _ = verifMutate(mutated, &kk, r1, rm1)
+	data, err := json.Marshal(mutated)
+	if err != nil {
+		return
+	}
+	verifExercise(data, false)
+	verifReach("end")
+}
